@@ -796,8 +796,7 @@ def _twin(tier, seed):
             per_key[x['key']] = per_key.get(x['key'], 0) + 1
             if per_key[x['key']] <= 12:
                 violations.append(x)
-        for c in hist['cells']:
-            distinct.add(cell_id(c))
+        distinct.add(tuple(cell_id(c) for c in hist['cells']))
         return v
 
     versions, dets, hops = (2, 3), (False, True), (False, True)
@@ -861,7 +860,7 @@ def _twin(tier, seed):
     return {'evaluations': evaluations, 'distinct_nontrivial': len(distinct), 'samples': samples, 'violations': violations,
             'rule': 'one evaluation = one control session in which 1 (systematic part) or 1..4 (seeded part) ephemeral services are requested through the real '
                     'create()/Tor.create_onion_service against a scripted Tor that decodes ADD_ONION with its own parser, and are then removed; every cell is '
-                    'non-trivial (a request is made and the wire is decoded); distinct by (version, key kind, detach, single-hop, client token pattern, '
+                    'non-trivial (a request is made and the wire is decoded); distinct = distinct sessions, a session being the sequence of its services\' (version, key kind, detach, single-hop, client token pattern, '
                     'port-form sequence, entry point, Tor behaviour {ok, rejects, returns a key despite DiscardPK}); at most 12 violations are kept per key '
                     '(all are counted in tC14.LAST_COUNTS)',
             'bounds': '%s; then %d seeded sessions of 1..4 services (1..6 mappings incl. ip / digit-string / private-address forms, 0..5 clients, '
